@@ -794,7 +794,7 @@ func (fx *FX) execReturn(st *State, x *ssa.Return) {
 			env.local["result"] = res[0]
 		}
 		for _, c := range fx.fc.Ensures {
-			fx.oblige("post", c.Label, st.PC, fx.evalBool(env, c.E), x.Pos(), c.Src)
+			fx.oblige("post", c.Label, st.PC, fx.goalBool(env, c.E), x.Pos(), c.Src)
 		}
 	}
 	fx.labelReturn(x)
